@@ -640,6 +640,31 @@ func c18Body(rc *RunCtx) {
 			}
 			simrt.Note("external edit #" + strconv.Itoa(e+1))
 			d.lastChange = simrt.Elapsed()
+			if !doWB && simrt.ChanceF(1, 8) {
+				// the file is moved away at the very moment a reader opens it (after the reload has
+				// seen its attributes) and is back, untouched, a moment later
+				armed := true
+				disk.FailOpen = func(p string, flag int) error {
+					if armed && p == d.path && flag&(simos.O_WRONLY|simos.O_RDWR) == 0 && d.inWB == nil {
+						armed = false
+						if back, ok := disk.DetachRaw(d.path); ok {
+							simrt.Fault("config_file_away_while_being_opened")
+							c18BuiltinDefaults(d)
+							simrt.AfterFunc(time.Duration(100+simrt.ChooseF(3000))*time.Microsecond, func() {
+								back()
+								d.lastChange = simrt.Elapsed()
+							})
+						}
+					}
+					return nil
+				}
+				for w := 0; w < 70 && armed; w++ {
+					simrt.Sleep(50 * time.Millisecond)
+				}
+				simrt.Sleep(5 * time.Millisecond)
+				disk.FailOpen = nil
+				d.lastChange = simrt.Elapsed()
+			}
 			if !doWB && d.sameMs == 0 && simrt.ChanceF(1, 6) {
 				// a save in two steps around the next reload: the first lands the instant before
 				// the reload looks at the file, the second right after it has loaded the first
